@@ -31,7 +31,11 @@ RULE = (
     "under a fixed slow configuration, the rest is sampled), optionally one of them from inside the transfer task "
     "itself (a transfer task finishing), optionally with the coroutine object created when the operation is scheduled "
     "and awaited one iteration later (asyncio.gather(transfer.state.a(), transfer.state.b()), the pattern of "
-    "TransferManager.manage_shares_changed; all 9^2 pairs enumerated). Oracle: the transfer lock is replaced by an observing subclass that snapshots "
+    "TransferManager.manage_shares_changed; all 9^2 pairs enumerated), optionally with the caller of one operation "
+    "cancelled 0..8 iterations after it was started (while it waits for the lock, during task cancellation / file "
+    "removal, or while the slow listener is being notified; enumerated for every legal first operation x every second "
+    "operation x k in {1,2,3}). Three listeners are registered: the TransferManager, a recording listener that yields "
+    "k iterations, and a recording listener behind it. Oracle: the transfer lock is replaced by an observing subclass that snapshots "
     "all transfer fields, the file and the tasks' cancel requests at every acquire/release; a sequential reference "
     "model (pinned graph pinned/transfer_graph.json plus the per-transition effects) is applied in lock-acquisition "
     "order; every notification (old,new) must be a pinned edge and chain; every result (True/False, "
@@ -40,7 +44,11 @@ RULE = (
     "which was no longer the transfer's state when it got the lock is reported under C03/stale-dispatch:* (one root "
     "cause) and ends the evaluation of that case. Non-trivial = schedule in which an operation waited for the lock "
     "or the state changed between call and lock acquisition, or a case containing a refused operation; distinct = "
-    "distinct case document."
+    "distinct case document. Cases with a cancelled caller: every (old,new) either listener saw is a pinned edge and is "
+    "a transition that was really made (state at lock acquisition -> state at release), no listener is told the same "
+    "transition more often than it was made, refusals are free of side effects (a listener that is skipped because "
+    "the caller was cancelled mid-notification is not a violation); non-trivial if the cancellation hit a running "
+    "operation."
 )
 ASSUMPTIONS = [
     "asyncio.Lock is FIFO and every entry point (state method wrapper, TransferManager.abort/queue/pause) reaches "
@@ -52,7 +60,12 @@ ASSUMPTIONS = [
     "start states are installed the way the unit tests and TransferManager.read_cache do it "
     "(transfer.state = TransferState.init_from_state(...)) with fields set consistently with that state",
     "operations issued from inside the transfer task are restricted to those a transfer task really issues "
-    "(no abort/pause of itself); callers of user-API operations are never cancelled",
+    "(no abort/pause of itself)",
+    "a caller of a user-API operation is cancelled only where the case says so (op field 'c' = loop iterations after "
+    "its task was started); cases containing such a cancellation are judged by the safety part only (every notification is a "
+    "pinned edge and a transition really made, none is delivered twice, refusals without side effect), because a "
+    "cancelled operation may legitimately be left half done (tasks cancelled or file removed without a transition) "
+    "and the property does not promise that listeners behind the one being notified are still told",
     "observation replaces Transfer._state_lock by a subclass of asyncio.Lock that only records, and the dummy tasks "
     "are asyncio.Task subclasses that only record cancel(); the virtual clock is advanced by 1 ms at every lock "
     "acquire/release so that time stamps set by different operations are distinguishable",
@@ -159,8 +172,12 @@ def normalise(case):
         # 'early': the coroutine object is created (``transfer.state.X()`` evaluated) when the operation is
         # scheduled and awaited by its task one iteration later, like TransferManager.manage_shares_changed does
         early = bool(raw.get('e', False)) and not via_manager and not in_task
+        # 'c': the caller's task is cancelled that many loop iterations after it was started (None = never), the
+        # way asyncio.wait_for(manager.abort(t), timeout) or a cancelled user task does
+        cancel = raw.get('c')
+        cancel = None if (cancel is None or in_task) else _int(cancel, 0, 8)
         ops.append(types.SimpleNamespace(name=name, reason=reason, manager=via_manager, in_task=in_task,
-                                         early=early, gap=_int(raw.get('g', 0), 0, 6)))
+                                         early=early, gap=_int(raw.get('g', 0), 0, 6), cancel=cancel))
     tasks = _int(case.get('tasks', 0), 0, 3)
     if intask is not None:
         tasks |= 1
@@ -171,6 +188,7 @@ def normalise(case):
     return types.SimpleNamespace(
         state=state, download=download, file=file, started=started, rq=bool(case.get('rq', False)), prog=prog,
         seq=bool(case.get('seq', True)), ops=ops, intask=intask, tasks=tasks,
+        has_cancel=any(op.cancel is not None for op in ops),
         d=_int(case.get('d', 0), 0, 4), x=EXEC_DELAYS[_int(case.get('x', 0), 0, 10 ** 6) % len(EXEC_DELAYS)],
         ly=_int(case.get('ly', 0), 0, 3))
 
@@ -392,7 +410,8 @@ def _run(c, res, tmpdir):
     recs = [{'i': i, 'result': 'U', 'captured': None, 'call_ev': None, 'acq_ev': None, 'waited': False,
              'before': None, 'after': None, 'snap_call': None, 'snap_ret': None,
              'window': None, 'call_window': None, 'notes': []} for i in range(n)]
-    notes = []              # (old, new, op index or None)
+    notes = []              # (old, new, op index or None) seen by the slow listener
+    notes_last = []         # (old, new) seen by the listener behind the slow one
     task_op = {}            # asyncio task -> index of the operation it is executing
     cancel_counts = {'transfer_task': 0, 'queue_task': 0}
     dummies = {}
@@ -460,6 +479,7 @@ def _run(c, res, tmpdir):
         t._state_lock = _ObservedLock(lock_hook)
 
         class Recorder:
+            """Second listener (behind the TransferManager): records, then is slow (yields c.ly iterations)."""
             async def on_transfer_state_changed(self, transfer, old, new):
                 i = holder['op'] if holder['op'] is not None else task_op.get(asyncio.current_task())
                 notes.append((old.name, new.name, i))
@@ -467,8 +487,14 @@ def _run(c, res, tmpdir):
                     recs[i]['notes'].append((old.name, new.name))
                 await simloop.step(c.ly)
 
+        class LastRecorder:
+            """Third listener, behind the slow one: only records."""
+            async def on_transfer_state_changed(self, transfer, old, new):
+                notes_last.append((old.name, new.name))
+
         await manager.add(t)
         t.state_listeners.append(Recorder())
+        t.state_listeners.append(LastRecorder())
 
         done = [loop.create_future() for _ in range(n)]
 
@@ -559,6 +585,13 @@ def _run(c, res, tmpdir):
         await simloop.step(2)       # the dummies are parked on their events
 
         op_tasks = []
+        early_coros = []
+        cancellers = []
+
+        async def cancel_later(task, k):
+            await simloop.step(k)
+            task.cancel()
+
         for i, op in enumerate(ops):
             await simloop.step(op.gap)
             if op.in_task:
@@ -568,7 +601,13 @@ def _run(c, res, tmpdir):
                 trigger.set()
             else:
                 coro = state_call(i) if op.early else None
-                op_tasks.append(loop.create_task(run_op(i, coro), name='c03-op-%d' % i))
+                if coro is not None:
+                    early_coros.append(coro)
+                tk = loop.create_task(run_op(i, coro), name='c03-op-%d' % i)
+                tk.add_done_callback(lambda _t, i=i: done[i].done() or done[i].set_result(None))
+                op_tasks.append(tk)
+                if op.cancel is not None:
+                    cancellers.append(loop.create_task(cancel_later(tk, op.cancel), name='c03-cancel-%d' % i))
             if c.seq:
                 await asyncio.wait([done[i]], timeout=50.0)
                 await asyncio.sleep(1.0)
@@ -583,16 +622,18 @@ def _run(c, res, tmpdir):
         for tk in op_tasks:
             if tk.done() and not tk.cancelled() and tk.exception() is not None:
                 raise tk.exception()
+        for coro in early_coros:
+            coro.close()        # a caller cancelled before its first step never awaited its coroutine
         return final, dict(flags)
 
     (final, end_flags), loop_errors = simloop.run_case_on_loop(main, max_iterations=200_000)
-    _evaluate(c, res, init, recs, notes, final, end_flags, loop_errors)
+    _evaluate(c, res, init, recs, notes, notes_last, final, end_flags, loop_errors)
 
 
 # ---------------------------------------------------------------------------
 # oracle
 
-def _evaluate(c, res, init, recs, notes, final, flags, loop_errors):
+def _evaluate(c, res, init, recs, notes, notes_last, final, flags, loop_errors):
     ops = c.ops
     download = c.download
     n = len(ops)
@@ -608,7 +649,8 @@ def _evaluate(c, res, init, recs, notes, final, flags, loop_errors):
         r = recs[i]
         op = ops[i]
         return (f"op#{i} {'manager.' if op.manager else 'state.'}{op.name}"
-                f"{'(in transfer task)' if op.in_task else ''}{'(coroutine created early)' if op.early else ''} "
+                f"{'(in transfer task)' if op.in_task else ''}{'(coroutine created early)' if op.early else ''}"
+                f"{'(caller cancelled after %d iterations)' % op.cancel if op.cancel is not None else ''} "
                 f"called in {r['captured']}, "
                 f"lock acquired in {r['before']['state'] if r['before'] else '-'} "
                 f"(waited={r['waited']}), result={r['result']}, notifications={r['notes']}")
@@ -653,6 +695,28 @@ def _evaluate(c, res, init, recs, notes, final, flags, loop_errors):
     for a, b, _ in notes:
         res.label(f'edge:{a}->{b}')
     res.nontrivial = bool((not c.seq and (waited or stale_capture)) or refused)
+    if c.has_cancel:
+        res.label('caller-cancelled')
+        for i, op in enumerate(ops):
+            if op.cancel is None:
+                continue
+            r = recs[i]
+            if r['result'] == 'U':
+                res.label('cancelled:before-start')
+            elif r['result'] != 'C':
+                res.label('cancelled:after-return')
+            elif r['before'] is None:
+                res.label('cancelled:waiting-for-lock')
+            elif r['notes']:
+                res.label('cancelled:during-notification')
+            else:
+                res.label('cancelled:holding-lock-before-transition')
+        res.nontrivial = res.nontrivial or any(r['result'] == 'C' for r in recs)
+        _evaluate_with_cancellation(c, res, recs, notes, notes_last, final, flags, loop_errors, history)
+        return
+    if [(a, b) for a, b, _ in notes] != notes_last:
+        res.violate('C03/listeners-disagree',
+                    f'the listener behind the slow one saw {notes_last}; {history}')
 
     # ---- 1. every notification is a pinned edge and the notifications chain
     prev = c.state
@@ -790,11 +854,61 @@ def _evaluate(c, res, init, recs, notes, final, flags, loop_errors):
                     f'{ {f: m[f] for f in bad} }; {history}')
 
 
+def _evaluate_with_cancellation(c, res, recs, notes, notes_last, final, flags, loop_errors, history):
+    """Safety part only. A cancelled caller may leave an operation half done and may leave listeners behind the one
+    being notified untold (the property promises neither): every (old,new) any listener saw is a pinned edge and a
+    transition that was really made, no listener is told the same transition twice, refused operations changed
+    nothing."""
+    ops = c.ops
+    # the transitions really made: state at lock acquisition -> state at release, in acquisition order
+    truth = []
+    for r in sorted((r for r in recs if r['acq_ev'] is not None), key=lambda r: r['acq_ev']):
+        if r['after'] is not None and r['before']['state'] != r['after']['state']:
+            truth.append((r['before']['state'], r['after']['state']))
+    history = f'{history} listener-behind-slow-one={notes_last} transitions-made={truth}'
+    for who, seen in (('slow-listener', [(a, b) for a, b, _ in notes]), ('listener-behind-slow-one', notes_last)):
+        untold = list(truth)
+        for pair in seen:
+            a, b = pair
+            if b not in EDGES.get(a, ()):
+                res.violate(f'C03/illegal-edge:{a}->{b}',
+                            f'{who} was told {a}->{b} which is not an edge of the documented graph; {history}')
+            elif pair in untold:
+                untold.remove(pair)
+            elif pair in truth:
+                res.violate(f'C03/notification-repeated:{a}->{b}',
+                            f'{who} was told {pair} more often than that transition was made; {history}')
+            else:
+                res.violate(f'C03/notification-of-no-transition:{a}->{b}',
+                            f'{who} was told {pair} which is not a transition that was made; {history}')
+    for i, r in enumerate(recs):
+        if r['result'] == 'N':
+            res.violate(f'C03/op-never-returned:{ops[i].name}', history)
+        elif r['result'].startswith('X:'):
+            res.violate(f'C03/unexpected-exception:{r["result"][2:]}@{ops[i].name}', history)
+        elif r['result'] == 'F' and r['before'] is not None and r['after'] is not None:
+            changed = [f for f in FIELDS if r['before'][f] != r['after'][f]]
+            if r['notes']:
+                changed.append('notification')
+            if changed:
+                res.violate(f'C03/refused-side-effect:{ops[i].name}@{r["before"]["state"]}:{",".join(changed)}',
+                            f'op#{i} reported refusal but changed '
+                            f'{ {f: (r["before"].get(f), r["after"].get(f)) for f in changed if f in r["before"]} }; '
+                            f'{history}')
+    if flags['unknown_acquirer']:
+        res.violate('C03/lock-taken-outside-operation', history)
+    if loop_errors:
+        res.violate('C03/loop-error', str(loop_errors[:2]) + ' ' + history)
+
+
 # ---------------------------------------------------------------------------
 # generation
 
-def _op(o, m=False, r=None, g=0, t=False, e=False):
-    return {'o': o, 'm': m, 'r': r, 'g': g, 't': t, 'e': e}
+def _op(o, m=False, r=None, g=0, t=False, e=False, c=None):
+    doc = {'o': o, 'm': m, 'r': r, 'g': g, 't': t, 'e': e}
+    if c is not None:
+        doc['c'] = c
+    return doc
 
 
 def _base(state, direction, ops, seq, **kw):
@@ -856,6 +970,24 @@ def enum_pairs(gaps, configs, entries, early=False):
                                     False, **cfg)
 
 
+def enum_cancelled(ks, gaps, lys, second=False):
+    """Pairs in which the caller of one operation is cancelled k iterations after it was started: the first one
+    (legal in the start state, so that it holds the lock: cancelled during task cancellation, file removal or while
+    the slow listener is being notified) followed by any operation, or (``second``) the second one, which waits for
+    the lock behind the first."""
+    for s in range(len(STATES)):
+        for direction in (0, 1):
+            for o1 in _accepted_ops(s, direction):
+                for o2 in range(len(OPS)):
+                    for k in ks:
+                        for g in gaps:
+                            for ly in lys:
+                                yield _base(s, direction,
+                                            [_op(o1, r=_reason(o1, 0), c=None if second else k),
+                                             _op(o2, r=_reason(o2, 1), g=g, c=k if second else None)],
+                                            False, tasks=3, d=2, x=0, ly=ly)
+
+
 def enum_pairs_in_task(gaps, configs):
     """Pairs in which one operation is issued by the transfer task itself (before or after the other)."""
     in_task = [OPS.index(nm) for nm in IN_TASK_OPS]
@@ -911,6 +1043,11 @@ def schedule_strategy(draw):
             o = draw(st.integers(0, len(OPS) - 1))
         ops.append(_op(o, m=draw(st.booleans()), r=draw(st.sampled_from(REASONS)),
                        g=draw(st.integers(0, 6)), t=draw(st.integers(0, 4)) == 0, e=draw(st.integers(0, 3)) == 0))
+    if draw(st.integers(0, 2)) == 0:
+        # the caller of one operation (mostly the first) is cancelled 0..8 iterations after it was started
+        victim = min(draw(st.sampled_from([0, 0, 0, 1, 1, 2])), nops - 1)
+        ops[victim]['c'] = draw(st.integers(0, 8))
+        ops[victim]['t'] = False
     return {'state': s, 'dir': direction, 'file': draw(st.sampled_from([0, 1, 1, 1, 2])),
             'started': draw(st.booleans()), 'rq': draw(st.booleans()), 'seq': False, 'ops': ops,
             'prog': draw(st.sampled_from([None] + _ALL_PROGS)),
@@ -945,6 +1082,8 @@ def _run_shard(ctx):
     ctx.enumerate(enum_histories_manager_depth2())
     if quick:
         ctx.enumerate(enum_histories_progress(2, _ALL_PROGS))
+        ctx.enumerate(enum_cancelled([1, 2, 3], [0, 1], [3]))
+        ctx.enumerate(enum_cancelled([1, 3], [1], [3], second=True))
         ctx.enumerate(enum_pairs([1], _SLOW_FIXED, state_entries))
         ctx.enumerate(enum_pairs([0], _NO_SLOW, state_entries, early=True))
         ctx.enumerate(enum_pairs_in_task([1], _SLOW_FIXED))
@@ -953,6 +1092,8 @@ def _run_shard(ctx):
     else:
         ctx.enumerate(enum_histories_progress(2, _ALL_PROGS))
         ctx.enumerate(enum_histories_progress(3, _MAIN_PROGS))
+        ctx.enumerate(enum_cancelled([0, 1, 2, 3, 4, 5, 6], [0, 1, 2, 4], [1, 2, 3]))
+        ctx.enumerate(enum_cancelled([0, 1, 2, 3, 5], [0, 1, 3], [0, 2, 3], second=True))
         ctx.enumerate(enum_pairs([0, 1, 2, 3, 5], _SLOW_MORE, _ENTRY))
         ctx.enumerate(enum_pairs([0, 1, 2], _SLOW_MORE, state_entries, early=True))
         ctx.enumerate(enum_pairs_in_task([0, 1, 3, 6], _SLOW_MORE))
